@@ -167,6 +167,8 @@ class TvtbAlgebra(AbstractAlgebra):
         return m.flatten()
 
     def superpose(self, a, b):
+        if len(a) != len(b):
+            raise ValueError("Inputs must have same length.")
         return a + b
 
     def bind(self, a, b):
